@@ -18,6 +18,8 @@
              fwd   `return g(x);`                        the callee normalised g's result itself
              exch  `return atomic_exchange(&obj, new);`  `xchg %al,(%rdi)`: al = old value, the
                                                          bits above are those of the NEW value
+                                                         (HEAD; with the ND_EXCH repair, fix-10,
+                                                         the extension of the old value)
              asm   the body returns from an asm statement (the idiom of test/asm.c): any bits
              ref   compiled by another ABI-conforming compiler: any bits
    Level A: consumed value = extension of the low bits according to T.
@@ -48,7 +50,8 @@ Prods == {"conv", "fwd", "exch", "asm", "ref"}
 (* ---- the callee: the register it returns with *)
 RetReg(t, prod, v, nv, up) ==
   CASE prod \in {"conv", "fwd"} -> [low |-> v, up |-> Ext(t, v)]      \* cast() / the callee's own normalisation after its call
-    [] prod = "exch" -> [low |-> v, up |-> Ext(t, nv)]                \* eax held the new value; xchg replaces al / ax only
+    [] prod = "exch" -> [low |-> v, up |-> up]                        \* Ext(t, nv): eax held the new value, xchg replaces al / ax only;
+                                                                      \* or Ext(t, v) once ND_EXCH extends its result (Init picks either)
     [] prod \in {"asm", "ref"} -> [low |-> v, up |-> up]              \* anything the psABI allows
 (* ---- the caller: ND_FUNCALL after `call` *)
 OwnDef(place) == place \in {"same", "samestatic"}                     \* lhs is ND_VAR of a function with is_definition
@@ -60,7 +63,7 @@ vars == <<ty, place, prod, v, nv, up, done>>
 Init == /\ ty \in Types /\ place \in Places /\ prod \in Prods
         /\ v \in Vals(ty)
         /\ nv \in (IF prod = "exch" THEN Vals(ty) ELSE {0})
-        /\ up \in (IF prod \in {"asm", "ref"} THEN Ups ELSE {"zeros"})
+        /\ up \in (IF prod \in {"asm", "ref"} THEN Ups ELSE IF prod = "exch" THEN {Ext(ty, v), Ext(ty, nv)} ELSE {"zeros"})
         /\ (prod = "ref" => place \in {"other", "otherptr"})          \* another compiler's callee is in another translation unit
         /\ done = FALSE
 Check == /\ ~done /\ done' = TRUE /\ UNCHANGED <<ty, place, prod, v, nv, up>>
